@@ -16,6 +16,11 @@ RULE = ("grid {0, 65536, 65537, 10^6, 2^62, 2^63-1, 2^63, 2^64-1} for client rx 
         "to the real server; histories of 2-5 POST /auth requests on ONE connection (first accepted rate A in {numeral, 0, missing, "
         "overflow, junk}, later B in {0, missing, smaller, larger, overflow, auto, junk, same}, requests refused by the Authenticator "
         "before/between) with the controller on the connection read after every response and all Authenticate/Connect calls; and raw response headers (incl. auto) served by a bare HTTP/3 server to the real client; "
+        "SEQUENCES of 2-5 real client.NewClient calls on ONE *client.Config object (as a reconnecting client makes them), answered by a bare "
+        "HTTP/3 server with auto / numerals / 0 / missing / overflow / junk in different orders (auto first then each numeric kind, number-auto-number, "
+        "random), earlier clients closed or kept open, the caller sometimes writing new limits into the object between two handshakes; per "
+        "handshake HandshakeInfo.Tx, the installed controller, the declared receive rate and the object's bandwidth fields after NewClient "
+        "returned are observed (each handshake must be the one a fresh Config with the caller's limits would make; the object is not modified); "
         "in-package header codec on arbitrary byte strings and multiple values; Config.fill() around the 65536 floor; "
         "brutal.NewBrutalSender around 2^63. Non-trivial = a handshake-level case (real network handshake) or a codec case whose "
         "header is not a plain in-range numeral. Distinct = distinct JSON case.")
@@ -169,7 +174,56 @@ def gen(rng, tier):
                   "ignore": False, "stype": ""})
     cases.append({"k": "rawresp", "hdr": "5", "ctx": M, "crx": 0, "ctype": ""})
     cases.append({"k": "rawresp", "hdr": "0", "ctx": 2 ** 63 - 1, "crx": 0, "ctype": ""})
+    # --- SEQUENCES of handshakes made from ONE client Config object (NewClient keeps the pointer; a reconnecting client
+    #     may get the same object from its configFunc every time), answered auto / numbers / 0 / missing / junk in
+    #     different orders; the caller sometimes writes new limits into the object between two handshakes.
+    #     (appended last, from a generator of its own: the cases above are the same as before for a given seed)
+    import random
+    rng2 = random.Random(rng.getrandbits(64))
+    cases += gen_seq(rng2, thorough)
     return cases
+
+
+SEQ_ANS = ["auto", "0", None, "", "100000", "65536", "1", "999999999", "18446744073709551615", "9223372036854775807",
+           "18446744073709551616", "abc", "Auto", "autos", "123456", "007"]
+SEQ_NUM = ["100000", "0", None, "1", "18446744073709551615", "65536"]
+SEQ_CTX = [123456, 1000, 65536, 10 ** 6, 2 ** 62, 1, 0]
+
+
+def seq_case(rng, ctx, answers, ctype=None, writes=None, close=None):
+    steps = []
+    for i, a in enumerate(answers):
+        st = {"hdr": a, "ctx": None, "crx": None, "close": (rng.random() < 0.5) if close is None else close}
+        if writes and i in writes:
+            st["ctx"], st["crx"] = writes[i]
+        steps.append(st)
+    return {"k": "seq", "ctx": ctx, "crx": rng.choice([0, 77, 10 ** 6, M]), "ctype": rng.choice(TYPES) if ctype is None else ctype,
+            "steps": steps}
+
+
+def gen_seq(rng, thorough):
+    out = []
+    # auto first, then every kind of numeric answer (and the other orders), on the same object
+    for k, n in enumerate(SEQ_NUM):
+        ctx = SEQ_CTX[k % 4]
+        out.append(seq_case(rng, ctx, ["auto", n], close=(k % 2 == 0)))
+        out.append(seq_case(rng, ctx, [n, "auto", n]))
+    out.append(seq_case(rng, 123456, ["auto", "auto", "100000", "0"]))
+    out.append(seq_case(rng, 123456, ["0", "100000", "auto", None, "200000"]))
+    out.append(seq_case(rng, 1000, ["abc", "auto", "500", "auto", "5000"], close=False))
+    out.append(seq_case(rng, 0, ["auto", "100000", "0"]))
+    # the caller changes its own limits between two handshakes (after an auto answer / after a number)
+    out.append(seq_case(rng, 123456, ["auto", "100000", "100000"], writes={2: (50000, None)}))
+    out.append(seq_case(rng, 0, ["100000", "100000", "auto", "100000"], writes={1: (70000, 5)}))
+    out.append(seq_case(rng, 10 ** 6, ["auto", "auto", "0"], writes={1: (0, None), 2: (2 ** 62, 0)}))
+    for _ in range(14 if not thorough else 300):
+        n = rng.randint(2, 4)
+        answers = [rng.choice(SEQ_ANS) if rng.random() < 0.65 else "auto" for _ in range(n)]
+        writes = None
+        if rng.random() < 0.25:
+            writes = {rng.randrange(1, n): (rng.choice(SEQ_CTX), rng.choice([None, 0, 99]))}
+        out.append(seq_case(rng, rng.choice(SEQ_CTX), answers, writes=writes))
+    return out
 
 
 # ---------------------------------------------------------------- Coq terms
@@ -258,6 +312,25 @@ def to_coq(c, o):
         rqs = "[" + ";".join("(%s,%s)" % (hdr_vals(r["hdr"]), b(r["acc"])) for r in c["reqs"]) + "]"
         return "CReauth %s %s [%s] [%s] [%s]" % (srv(c), rqs, ";".join(obs), ";".join(num(x) for x in (o.get("auth_txs") or [])),
                                                  ";".join(num(x) for x in (o.get("connect_txs") or [])))
+    if k == "seq":
+        if len(o.get("steps") or []) != len(c["steps"]):
+            return None
+        steps, obs = [], []
+        cur_tx, cur_rx = c["ctx"], c["crx"]
+        for st, so in zip(c["steps"], o["steps"]):
+            ci = inst(so.get("c_kind"), so.get("c_bps"))
+            if ci is None or "req_hdr" not in so:
+                return None
+            upd = "None"
+            if st["ctx"] is not None or st["crx"] is not None:
+                # the caller writes MaxTx and / or MaxRx: the model's write carries both fields
+                cur_tx = cur_tx if st["ctx"] is None else st["ctx"]
+                cur_rx = cur_rx if st["crx"] is None else st["crx"]
+                upd = "(Some (%s,%s))" % (num(cur_tx), num(cur_rx))
+            steps.append("(%s,%s)" % (upd, hdr_vals(st["hdr"])))
+            obs.append("(%s,%s,%s,(%s,%s))" % (num(so["info_tx"]), ci, common.coq_bytes(bytes.fromhex(so["req_hdr"])),
+                                              num(so["tx_after"]), num(so["rx_after"])))
+        return "CSeq %s [%s] [%s]" % (cli(c), ";".join(steps), ";".join(obs))
     if k == "rawresp":
         ci = inst(o.get("c_kind"), o.get("c_bps"))
         if ci is None or "req_hdr" not in o:
@@ -311,12 +384,18 @@ def klass(c, o):
         return "reauth:%s:first=%s:then=%s" % ("refused-first" if f > 0 else "accepted-first",
                                              hclass(None if c["reqs"][f]["hdr"] is None else c["reqs"][f]["hdr"].encode()),
                                              "+".join(hclass(None if r["hdr"] is None else r["hdr"].encode()) for r in later[:2]) or "none")
+    if k == "seq":
+        hs = [hclass(None if st["hdr"] is None else st["hdr"].encode()) for st in c["steps"]]
+        first_auto = hs.index("auto") if "auto" in hs else None
+        after = "none" if first_auto is None else ("+".join(sorted(set(hs[first_auto + 1:]))) or "nothing")
+        return "seq(one Config, %d handshakes):after-auto=%s%s" % (len(hs), after,
+                                                                    ":caller-writes" if any(st["ctx"] is not None or st["crx"] is not None for st in c["steps"]) else "")
     return "rawresp:%s:%s" % (hclass(None if c["hdr"] is None else c["hdr"].encode()), side(o["c_kind"], o["c_bps"]))
 
 
 def nontrivial(c, o):
     k = c["k"]
-    if k in ("hs", "rawreq", "rawresp", "reauth"):
+    if k in ("hs", "rawreq", "rawresp", "reauth", "seq"):
         return "err" not in o
     if k in ("preq", "presp"):
         raw = bytes.fromhex(c["vals"][0]) if c["vals"] else None
@@ -364,7 +443,7 @@ def run(ctx):
         seen, out, counts = set(), [], {}
         for v in violations:
             what = v.get("what") or ""
-            if what.startswith("reauth:"):
+            if what.startswith("reauth:") or what.startswith("seq:"):
                 # one line per clause that failed first; headers, controller kinds and rates blanked
                 what = re.sub(r"\b(brutal|bbr|default)@", "K@", re.sub(r'"[^"]*"|<missing>', "Q", what.split(";")[0]))
             key = v.get("fingerprint") or re.sub(r"-?\d+", "N", what)
